@@ -7,6 +7,7 @@ import (
 	"context"
 	"crypto/tls"
 	"fmt"
+	"net"
 	"net/netip"
 	"time"
 
@@ -46,26 +47,31 @@ func newNTSWorld(r *simcore.Run, nlisten int) *ntsWorld {
 	return w
 }
 
+// countingListener counts accepted connections (= key exchanges attempted).
+type countingListener struct {
+	net.Listener
+	n *int
+}
+
+func (l countingListener) Accept() (net.Conn, error) {
+	c, err := l.Listener.Accept()
+	if err == nil {
+		*l.n++
+	}
+	return c, err
+}
+
+// startKE runs the repository's own NTS-KE accept loop (runNTSKEServerTLS, which spawns
+// handleKeyExchangeTLS per connection) on a simulated TLS listener.
 func (w *ntsWorld) startKE(cert tls.Certificate) {
-	lst, err := w.net.ListenStream(hp(ipSrvIP, kePort), nil)
+	cfg := &tls.Config{Certificates: []tls.Certificate{cert}, MinVersion: tls.VersionTLS13, NextProtos: []string{keALPN}}
+	lst, err := w.net.ListenStream(hp(ipSrvIP, kePort), cfg)
 	if err != nil {
 		panic(err)
 	}
 	w.lst = lst
 	w.goSafe("ke-accept", func() {
-		for {
-			raw, err := lst.AcceptRaw()
-			if err != nil {
-				return
-			}
-			k := w.nextK
-			w.nextK++
-			w.goSafe(fmt.Sprintf("ke%d", k), func() {
-				cfg := &tls.Config{Certificates: []tls.Certificate{cert}, MinVersion: tls.VersionTLS13, NextProtos: []string{keALPN}}
-				server.VerifHandleKeyExchangeTLS(context.Background(), quietLog(), tls.Server(raw, cfg), ipPort, w.prov)
-				w.keOK++
-			})
-		}
+		server.VerifRunNTSKEServerTLS(context.Background(), quietLog(), countingListener{lst, &w.nextK}, ipPort, w.prov)
 	})
 }
 
